@@ -25,6 +25,18 @@ def build(params):
         sources.append([{'id': j, 'name': 'r%d-%d' % (i, j), 'amount': (j * 3) % 7} for j in range(n)] or
                        [{'id': 0, 'name': 'only', 'amount': 1}])
 
+    sfail = params.get('source_fail_at')
+    if sfail is not None:
+        # the source itself (a generator) fails at a given item - inside or beyond the inference sample
+        full = sources[sfail[0]]
+
+        def failing(full=full, at=sfail[1]):
+            for j, r in enumerate(full):
+                if j == at:
+                    raise ValueError('source broke')
+                yield r
+        sources[sfail[0]] = failing()
+
     def trim(rows):
         # resources declared empty are emptied after inference (an iterable needs one row to be inferred)
         idx = int(rows.res.name.split('_')[1]) - 1
@@ -183,6 +195,40 @@ def shape_run(ctx, shape, idx):
     shutil.rmtree(base, ignore_errors=True)
 
 
+def source_fail_run(ctx):
+    """a generator source that breaks at item k (inside and beyond the 100-item inference sample) while the checkpoint
+    is being written: the run fails, no checkpoint is left, the next run recomputes the uninterrupted result"""
+    rep = ctx.report
+    shape = [130, 2]
+    base = os.path.join(ctx.scratch, 'srcfail')
+    final_rel = os.path.join('cp', 'stream.ndjson')
+
+    def fresh(tag):
+        d = os.path.join(base, tag)
+        os.makedirs(os.path.join(d, 'ck'), exist_ok=True)
+        return d, {'rows': shape, 'ckdir': os.path.join(d, 'ck'), 'counter': os.path.join(d, 'counter')}
+    d0, p0 = fresh('baseline')
+    b = fsfault.run_child('harness.props.c08:build', p0, p0['ckdir'], d0, 'base')
+    if b['returncode'] != 0 or b['result'] is None:
+        raise RuntimeError('baseline child failed: %r %s' % (b['returncode'], b['stderr']))
+    for ri, at in ([0, 5], [0, 100], [0, 115], [0, 129], [1, 1]):
+        d, p = fresh('s%d_%d' % (ri, at))
+        p['source_fail_at'] = [ri, at]
+        r = fsfault.run_child('harness.props.c08:build', p, p['ckdir'], d, 'fail')
+        case = {'rows_per_resource': shape, 'source_breaks_at': [ri, at]}
+        rep.case('source-failure', case, key=['srcfail', ri, at])
+        if r['returncode'] == 0:
+            rep.fail('source-failure-did-not-fail-the-run', case, {})
+        if os.path.exists(os.path.join(p['ckdir'], final_rel)):
+            rep.fail('checkpoint-committed-after-failure', case, {'ops': [o[1] for o in r['trace']][-4:]})
+        del p['source_fail_at']
+        r2 = fsfault.run_child('harness.props.c08:build', p, p['ckdir'], d, 'rerun')
+        if r2['result'] != b['result']:
+            rep.fail('next-run-differs-after-failure', case, {'rows': [len(x) for x in (r2['result'] or {}).get('rows', [])]})
+        shutil.rmtree(d, ignore_errors=True)
+    shutil.rmtree(base, ignore_errors=True)
+
+
 def run(ctx):
     rep = ctx.report
     rep.rule = ('checkpointing pipelines of 1-3 resources x 0-N rows; a real SIGKILL before every file operation of the '
@@ -194,6 +240,7 @@ def run(ctx):
     shapes = [[2, 0], [3], [1, 1, 2]] if ctx.quick else [[0], [1], [2, 0], [0, 3], [1, 1, 2], [12], [5, 0, 7], [50]]
     for idx, shape in enumerate(shapes):
         shape_run(ctx, shape, idx)
+    source_fail_run(ctx)
 
     def search(disagreements):
         before = len(rep.oracle_failures)
